@@ -165,6 +165,11 @@ func c07Props(k int) map[string]interface{} {
 		return map[string]interface{}{}
 	case 2:
 		return map[string]interface{}{"s": "x", "n": 1.5, "b": true, "z": nil, "a": []interface{}{1.0, "two", map[string]interface{}{"k": 3.0}}}
+	case 3:
+		// property keys that are spelled like members of the Feature object itself
+		return map[string]interface{}{"id": "parcel-17", "type": "Feature", "bbox": []interface{}{1.0, 2.0, 3.0, 4.0}, "geometry": nil, "properties": map[string]interface{}{"id": 7.0}}
+	case 4:
+		return map[string]interface{}{"id": 42.0, "ID": "x", "Id": true}
 	}
 	return nil
 }
@@ -639,7 +644,7 @@ func c07Run(c *engine.Ctx) {
 		ref.NewPoint(geom.XY, false, ref.Counter())}
 	for _, id := range []string{"", "a", "0", "1e3"} {
 		for bb := 0; bb < 6; bb++ {
-			for pr := 0; pr < 3; pr++ {
+			for pr := 0; pr < 5; pr++ {
 				for _, g := range geoms {
 					c07Exec(c, c07Case{Mode: "feature", G: g, ID: id, BBox: bb, Props: pr})
 					for n := 0; n <= 2; n++ {
